@@ -180,7 +180,8 @@ class Task(object):
         @param params: (list of dict for parameters) see cmdparse.CmdOption
         """
 
-        getargs = getargs or {}  # default
+        if getargs is None:
+            getargs = {}  # default
         self.check_attr(name, 'name', name, self.valid_attr['name'])
         self.check_attr(name, 'actions', actions, self.valid_attr['actions'])
         self.check_attr(name, 'file_dep', file_dep, self.valid_attr['file_dep'])
@@ -227,7 +228,7 @@ class Task(object):
         if self.loader and self.loader.task_dep:
             self.task_dep.append(loader.task_dep)
 
-        uptodate = uptodate if uptodate else []
+        uptodate = list(uptodate) if uptodate else []
 
         self.getargs = getargs
         if self.getargs:
